@@ -38,7 +38,7 @@ func init() {
 		for _, c := range sx.Items(it[1]) {
 			chunks = append(chunks, sx.Bytes(c))
 		}
-		return runCFeed(int(sx.Int(it[0])), chunks)
+		return Safe(func() sx.V { return runCFeed(int(sx.Int(it[0])), chunks) })
 	}
 }
 
@@ -77,7 +77,7 @@ func suiteCFeed(c *Ctx) {
 		for _, ch := range chunks {
 			cs = append(cs, sx.B(ch))
 		}
-		c.Emit("cfeed", sx.L(sx.I(limit), sx.L(cs...)), runCFeed(limit, chunks), tags...)
+		c.Emit("cfeed", sx.L(sx.I(limit), sx.L(cs...)), Safe(func() sx.V { return runCFeed(limit, chunks) }), tags...)
 	}
 	big := 6 * 1024 * 1024
 	n := 250
